@@ -1,6 +1,7 @@
 import CJ.Drv.Loop
 import CJ.Drv.RW
 import CJ.Drv.ReloadPath
+import CJ.Drv.BdReq
 /-! Driver for C13: the RWMutex model over the regenerated lock programs; the reload goroutine's rounds. -/
 open CJ.Drv
 
@@ -12,4 +13,5 @@ def main : IO Unit := runDriver fun
   | "rwrefuse" :: args => RW.handle "rwrefuse" args
   | "rwrefsched" :: args => RW.handle "rwrefsched" args
   | "gate" :: args => ReloadPath.handle args
+  | "bdreq" :: args => BdReq.handle args
   | _ => none
